@@ -231,7 +231,7 @@ def run(ctx):
         for idxs in _ed.sub_batches(ctx.rng, len(g), 6 if ctx.quick else 40):
             check_group(ctx, key, [g[i] for i in idxs], _ed.TOKEN_MAPS[ti], 1.0, LIGHT, "small")
         # more sample sets where the three costs differ (a cost passed to the wrong parameter only shows there)
-        check_mer(ctx, key, g, _ed.TOKEN_MAPS[ti], (2 if key[1][0] == key[1][1] == key[1][2] else 12) if ctx.quick else 40)
+        check_mer(ctx, key, g, _ed.TOKEN_MAPS[ti], (2 if key[1][0] == key[1][1] == key[1][2] else 12) if ctx.quick else 16)
         ctx.traces += len(g)
     ctx.extra["pairs_with_non_unique_edit_count"] = int(wide)
     if not ctx.samples:
